@@ -238,7 +238,7 @@ def simulateAll (cfg : Cfg R) (r : Runner R) (outs : List (Outcome R)) : SimEnd 
 /-- `simulate(param_variation_index)` -/
 def simulateSingle (cfg : Cfg R) (r : Runner R) (idx : Int) (outs : List (Outcome R)) : SimEnd R :=
   let r0 := r.clear
-  if !r0.file then ⟨r0, [], outs, some .RuntimeError⟩
+  if !r.file then ⟨r, [], outs, some .RuntimeError⟩   -- refused before anything is cleared
   else if 0 ≤ idx ∧ idx.toNat < cfg.nvar then
     let i := idx.toNat
     match runVariation cfg.merge cfg.repMax (cfg.keep i) (r0.load i) outs with
@@ -247,6 +247,13 @@ def simulateSingle (cfg : Cfg R) (r : Runner R) (idx : Int) (outs : List (Outcom
       if e.exhausted then ⟨r0, List.replicate e.st.calls i, [], some .Exhausted⟩
       else ⟨{ (r0.save i e.st) with reps := .single e.st.rep }, List.replicate e.st.calls i, e.rest, none⟩
   else ⟨r0, [], outs, none⟩
+
+/-- `delete_partial_results_bool`: the clean-up of a completed `simulate()` that has a
+    results file removes every partial file this runner has written -/
+def SimEnd.afterCleanup (del : Bool) (e : SimEnd R) : SimEnd R :=
+  if e.status.isNone && e.runner.file && del then
+    { e with runner := { e.runner with store := [] } }
+  else e
 
 /-! ### Parameter grid -/
 
